@@ -789,13 +789,13 @@ macro_rules! to_base {
         }
     };
 }
-// @h prop=C09 unwind=4 timeout=600 mem=12 stubs=BigNum::rem,div,new->one-limb_models what=2_digits:to_string_base(2):all_values<2^3,both_signs:conventional_digits,leading_minus,no_leading_zero,"0"
+// @h prop=C09 unwind=4 timeout=900 mem=12 tier=thorough kind=stretch stubs=BigNum::rem,div,new->one-limb_models what=2_digits:to_string_base(2):all_values<2^3,both_signs:conventional_digits,leading_minus,no_leading_zero,"0"
 to_base!(to_base_2, 2u32);
-// @h prop=C09 unwind=4 timeout=600 mem=12 stubs=BigNum::rem,div,new->one-limb_models what=2_digits:to_string_base(10):all_values<1000,both_signs
+// @h prop=C09 unwind=4 timeout=900 mem=12 tier=thorough kind=stretch stubs=BigNum::rem,div,new->one-limb_models what=2_digits:to_string_base(10):all_values<1000,both_signs
 to_base!(to_base_10, 10u32);
-// @h prop=C09 unwind=4 timeout=600 mem=12 stubs=BigNum::rem,div,new->one-limb_models what=2_digits:to_string_base(16):all_values<4096
+// @h prop=C09 unwind=4 timeout=900 mem=12 tier=thorough kind=stretch stubs=BigNum::rem,div,new->one-limb_models what=2_digits:to_string_base(16):all_values<4096
 to_base!(to_base_16, 16u32);
-// @h prop=C09 unwind=4 timeout=600 mem=12 stubs=BigNum::rem,div,new->one-limb_models what=2_digits:to_string_base(36):all_values<46656(digits_up_to_Z)
+// @h prop=C09 unwind=4 timeout=900 mem=12 tier=thorough kind=stretch stubs=BigNum::rem,div,new->one-limb_models what=2_digits:to_string_base(36):all_values<46656(digits_up_to_Z)
 to_base!(to_base_36, 36u32);
 
 // @h prop=C09 unwind=6 timeout=900 mem=12 tier=thorough kind=stretch what=to_string_base(symbolic_base_2..36):values<base^3
@@ -811,7 +811,7 @@ pub fn to_base_sym() {
     vcover!();
 }
 
-// @h prop=C09 unwind=4 timeout=120 what=to_string_base/from_string_base_reject_base_0_and_bases_above_36
+// @h prop=C09 unwind=4 timeout=900 mem=12 tier=thorough kind=stretch what=to_string_base/from_string_base_reject_base_0_and_bases_above_36
 #[cfg_attr(kani, kani::proof)]
 pub fn base_range() {
     let base = any_usize();
@@ -924,28 +924,28 @@ macro_rules! base_roundtrip {
         }
     };
 }
-// @h prop=C09 unwind=7 timeout=900 mem=12 stubs=BigNum::rem,div,mul,add,new->one-limb_models what=render_then_read_back,base_10,values<1000,both_signs
+// @h prop=C09 unwind=7 timeout=900 mem=12 tier=thorough kind=stretch stubs=BigNum::rem,div,mul,add,new->one-limb_models what=render_then_read_back,base_10,values<1000,both_signs
 base_roundtrip!(base_roundtrip_10, 10u32);
-// @h prop=C09 unwind=7 timeout=900 mem=12 tier=thorough stubs=BigNum::rem,div,mul,add,new->one-limb_models what=render_then_read_back,base_36
+// @h prop=C09 unwind=7 timeout=900 mem=12 tier=thorough kind=stretch stubs=BigNum::rem,div,mul,add,new->one-limb_models what=render_then_read_back,base_36
 base_roundtrip!(base_roundtrip_36, 36u32);
-// @h prop=C09 unwind=7 timeout=900 mem=12 tier=thorough stubs=BigNum::rem,div,mul,add,new->one-limb_models what=render_then_read_back,base_2
+// @h prop=C09 unwind=7 timeout=900 mem=12 tier=thorough kind=stretch stubs=BigNum::rem,div,mul,add,new->one-limb_models what=render_then_read_back,base_2
 base_roundtrip!(base_roundtrip_2, 2u32);
 
 // vacuity twin (must FAIL)
-// @h prop=C09 unwind=6 timeout=600 mem=12 kind=twin
+// @h prop=C09 unwind=7 timeout=600 mem=12 kind=twin
 #[cfg_attr(kani, kani::proof)]
-#[cfg_attr(kani, kani::stub(BigNum::rem, m_rem))]
-#[cfg_attr(kani, kani::stub(BigNum::div, m_div))]
+#[cfg_attr(kani, kani::stub(BigNum::mul, m_mul))]
+#[cfg_attr(kani, kani::stub(BigNum::add, m_add))]
 #[cfg_attr(kani, kani::stub(BigNum::new, m_new1))]
-pub fn twin_to_base() {
-    let (v, pos) = (any_u32(), any_bool());
-    assume(v < 1000);
-    to_base_body(10, v, pos);
+pub fn twin_from_base() {
+    let neg = any_bool();
+    let d = [any_u8() & 0x7F];
+    from_base_body::<1>(16, neg, d);
     assert!(false);
 }
 
 // probe: one digit, non-negative
-// @h prop=C09 unwind=3 uw=memcmp.0:6 timeout=600 mem=12 kind=stretch what=probe_to_string_base_one_digit
+// @h prop=C09 unwind=3 uw=memcmp.0:6 timeout=600 mem=12 what=to_string_base:one_digit,every_base_2..36
 #[cfg_attr(kani, kani::proof)]
 #[cfg_attr(kani, kani::stub(BigNum::rem, m_rem))]
 #[cfg_attr(kani, kani::stub(BigNum::div, m_div))]
@@ -961,7 +961,7 @@ pub fn to_base_1digit() {
     std::mem::forget((x, s));
 }
 
-// @h prop=C09 unwind=4 uw=memcmp.0:6 timeout=900 mem=12 kind=stretch what=probe_to_string_base_two_digits
+// @h prop=C09 unwind=4 uw=memcmp.0:6 timeout=900 mem=12 tier=thorough kind=stretch what=probe_to_string_base_two_digits
 #[cfg_attr(kani, kani::proof)]
 #[cfg_attr(kani, kani::stub(BigNum::rem, m_rem))]
 #[cfg_attr(kani, kani::stub(BigNum::div, m_div))]
